@@ -45,7 +45,7 @@ REG.bounded_check("C01.instrumented_execution", ["C01"], "C01.bounded",
                   bound="14 programs x 1-4 argument tuples: every evaluated Name/Subscript/Call/BinOp/IfExp/BoolOp/Compare node's runtime value must belong to its inferred type (annotate_code)")
 REG.bounded_check("C10.determinism", ["C10"], "C10.bounded",
                   covers=["the whole checker on the corpus: union member order, listed names, message text"],
-                  bound="15 source files (format mapping keys, unexpected keywords, or/and narrowing, `in` narrowing, unused variables, branch unions, protocols, overloads, try/with definitions, nested functions, stdlib calls, iterator classes) x PYTHONHASHSEED in {0,1,2,3,5,7} in fresh subprocesses (full rendered messages compared); two check orders in one process; one Checker shared by all files (both orders) against the fresh-Checker baseline; 2 non-importable scripts checked without a module object, alone and after each other; module-name tokens normalised")
+                  bound="15 source files (format mapping keys, unexpected keywords, or/and narrowing, `in` narrowing, unused variables, branch unions, protocols, overloads, try/with definitions, nested functions, stdlib calls, iterator classes) x PYTHONHASHSEED in {0,1,2,3,5,7} (thorough: 0..15) in fresh subprocesses (full rendered messages compared); two check orders in one process; one Checker shared by all files (both orders) against the fresh-Checker baseline; 2 non-importable scripts checked without a module object, alone and after each other; module-name tokens normalised")
 REG.bounded_check("C19.literal_operations", ["C19"], "C19.bounded",
                   covers=["NameCheckVisitor.visit_BinOp / visit_UnaryOp / _check_dunder_call", "signature._maybe_perform_call", "attributes._get_attribute_from_known / _get_attribute_from_mro",
                           "implementation subscript impls (tuple / str / list __getitem__)"],
@@ -75,7 +75,7 @@ REG.bounded_check("C05.validate", ["C05"], "C05.validate",
                   covers=["Signature.validate (cross-check of the proved kernel against CPython's parameter rules)"], bound="all parameter lists of <= 3 parameters over 5 kinds x default / required")
 REG.bounded_check("C07.shape_inclusion", ["C07"], "C07.bounded",
                   covers=["Signature.can_assign", "can_assign_var_positional / can_assign_var_keyword (cross-check)", "arg_spec signatures of def statements", "NameCheckVisitor._check_for_incompatible_overrides / _get_base_class_attributes / _can_assign_to_base_callable, bind_self"],
-                  bound="148 x 148 pairs of def signatures (<= 3 parameters of all kinds / default patterns): accepted => every one of 40 call shapes (<= 3 positionals, <= 3 keywords) that binds to the expected "
+                  bound="148 x 148 (thorough: 180 x 180, <= 4 parameters) pairs of def signatures (<= 3 parameters of all kinds / default patterns): accepted => every one of 40 call shapes (<= 3 positionals, <= 3 keywords) that binds to the expected "
                         "function binds to the actual one (real calls); 16 x 16 typed pairs over bool/int/object/str: accepted <=> parameter contravariance and return covariance; 179 method overrides (13 x 13 method signatures, double inheritance, functions assigned in the class body): incompatible_override <=> some of 32 call shapes binds to a base method and fails on the override (known finding D5 skipped)")
 REG.bounded_check("C06.calls", ["C06"], "C06.bounded",
                   covers=["Signature.check_call_with_bound_args (generic pre-pass, resolve_bounds_map, return substitution)", "Signature._check_param_type_compatibility (cross-check)", "arg_spec constructor / dataclass / bound-method signatures, bind_self",
